@@ -372,11 +372,14 @@ Join(l, r, on, how, usfx) ==
         onIds == UNION {OnRefs(es[i]) : i \in DOMAIN es}
         rOnNames == {r.nm[c] : c \in VisSet(r) \cap onIds}
         onlyJoinClash == ((rn \ rOnNames) \cap ln) = {}
-        needInt == usfx = "" /\ both # {} /\ \E n \in rn : Concat(n, sfxAuto) \in ln
-        \* "If this still does not resolve all name collisions, additionally an integer is appended"
-        kInt == CHOOSE k \in 1..20 : (\A n \in rn : Concat(n, Concat(sfxAuto, Concat("_", ToString(k)))) \notin ln)
-                                     /\ \A j \in 1..(k - 1) : \E n \in rn : Concat(n, Concat(sfxAuto, Concat("_", ToString(j)))) \in ln
-        sfxEff == IF needInt THEN Concat(sfxAuto, Concat("_", ToString(kInt))) ELSE sfxAuto
+        \* "If this still does not resolve all name collisions, additionally an integer is appended": the smallest one for
+        \* which no renamed column collides with a left column or with a right column that keeps its name (F28)
+        renamed == IF onlyJoinClash THEN both ELSE rn
+        taken == ln \cup (rn \ renamed)
+        SfxK(k) == IF k = 0 THEN sfxAuto ELSE Concat(sfxAuto, Concat("_", ToString(k)))
+        needK(k) == \E n \in renamed : Concat(n, SfxK(k)) \in taken
+        kInt == CHOOSE k \in 0..20 : ~needK(k) /\ \A j \in 0..(k - 1) : needK(j)
+        sfxEff == SfxK(kInt)
         newName(c) ==
             IF c \notin VisSet(r) THEN r.nm[c]
             ELSE IF usfx # "" THEN Concat(r.nm[c], usfx)
@@ -416,7 +419,7 @@ Join(l, r, on, how, usfx) ==
               pcls |-> AllOnes(Len(rows)), scls |-> AllOnes(Len(rows)),
               pdef |-> l.pdef /\ r.pdef, sdef |-> l.sdef /\ r.sdef,
               name |-> l.name, root |-> l.root \cup r.root,
-              loose |-> needInt, cst |-> l.cst \cup r.cst ])
+              loose |-> (usfx = "" /\ both # {} /\ kInt > 0), cst |-> l.cst \cup r.cst ])
 
 ---------------------------------------------------------------------------
 (* union: rows of both tables matched by column NAME under the left        *)
